@@ -127,7 +127,8 @@ static void*& data_of(InFlightEvent& e, int dir) { return dir ? e.writer_data : 
 //  - while any direction is registered the kernel registration exists, is ARMED, is one-shot, carries the descriptor as data and
 //    requests exactly the registered directions (so an event for a still-waiting direction cannot be lost)
 //  - an entry with interests == 0 has no kernel registration; an entry with only ONE_SHOT left keeps a (possibly disarmed / stale)
-//    kernel registration that a later add_interest re-programs with EPOLL_CTL_MOD
+//    kernel registration that a later add_interest re-programs with EPOLL_CTL_MOD, or has none any more (the descriptor was closed,
+//    which drops it from the epoll set, and the number was re-used): add_interest then falls back from MOD/ENOENT to ADD
 static bool inv(int fd)
 {
     InFlightEvent& e = table[fd]; KFd& k = K[fd];
@@ -140,15 +141,15 @@ static bool inv(int fd)
         uint32_t want = ((rw & EVENT_READ) ? (uint32_t)(EPOLLIN | EPOLLRDHUP) : 0u) | ((rw & EVENT_WRITE) ? (uint32_t)EPOLLOUT : 0u) | (uint32_t)EPOLLONESHOT;
         return k.registered && k.armed && k.mask == want && k.data == (uint64_t)fd;
     }
-    if (e.interests == 0) return !k.registered;
-    return k.registered && k.data == (uint64_t)fd && (k.mask & EPOLLONESHOT) && !(k.mask & ~(uint32_t)(KBITS | EPOLLONESHOT));
+    if (e.interests == 0 || !k.registered) return !k.registered;      // (ONE_SHOT left, no kernel registration: the descriptor was closed and re-created)
+    return k.data == (uint64_t)fd && (k.mask & EPOLLONESHOT) && !(k.mask & ~(uint32_t)(KBITS | EPOLLONESHOT));
 }
 
 // symbolic initial state of one descriptor
 static void mk_fd(int fd, uint8_t st, uint32_t stale_mask, bool stale_armed, bool stale_r, bool stale_w)
 {
     InFlightEvent& e = table[fd]; KFd& k = K[fd];
-    ASSUME(st <= 4);
+    ASSUME(st <= 5);
     bool r = (st == 2 || st == 4), w = (st == 3 || st == 4);
     e.interests = (r ? EVENT_READ : 0) | (w ? EVENT_WRITE : 0) | (st ? ONE_SHOT : 0);
     // data of a direction without registered interest is null or a left-over pointer
@@ -156,7 +157,7 @@ static void mk_fd(int fd, uint8_t st, uint32_t stale_mask, bool stale_armed, boo
     e.writer_data = w ? th_ptr(widx(fd, 1)) : stale_w ? th_ptr(T_S) : nullptr;
     e.error_data = nullptr;
     k.data = fd;
-    if (st == 0) { k.registered = false; k.armed = false; k.mask = 0; }
+    if (st == 0 || st == 5) { k.registered = false; k.armed = false; k.mask = 0; }
     else if (st == 1) { k.registered = true; k.armed = stale_armed; k.mask = (stale_mask & KBITS) | EPOLLONESHOT; }
     else { k.registered = true; k.armed = true; k.mask = (r ? (EPOLLIN | EPOLLRDHUP) : 0) | (w ? EPOLLOUT : 0) | EPOLLONESHOT; }
 }
@@ -259,7 +260,8 @@ void harness_epoll()
         if (ret == -1 && e == ETIMEDOUT && (pre_interests[f] & dirbit(1 - d))) WITNESS("timeout while the other direction of the same descriptor is awaited");
         if (ret == -1 && e == ETIMEDOUT && pre_interests[f] == 0) WITNESS("timeout on a fresh descriptor");
         if (ret == -1 && e != ETIMEDOUT && intr_cnt[widx(other, 0)] == 1) WITNESS("interrupted while another descriptor's reader is fired");
-        if (ret == 0 && pre_interests[f] == ONE_SHOT) WITNESS("re-programmed a left-over kernel registration");
+        if (ret == 0 && pre_interests[f] == ONE_SHOT && pre_kreg[f]) WITNESS("re-programmed a left-over kernel registration");
+        if (ret == 0 && pre_interests[f] == ONE_SHOT && !pre_kreg[f]) WITNESS("descriptor number re-used: EPOLL_CTL_MOD failed with ENOENT, added again");
     }
 #elif OP == 2
     // ---- the descriptor is withdrawn from the engine (wait_for_fd(fd, 0, ...), as done before close()) ----
